@@ -31,7 +31,11 @@ NB == 64
 
 Bases == { <<Id(<<120>>)>>, <<CurT>>, <<Id(<<120>>), Dot, Id(<<97>>)>>, <<Id(<<120>>), LB, IntT(<<48>>), RB>> }
 Projs == { <<LB, Star, RB>>, <<Flat>>, <<Filt, Id(<<97>>), RB>>, <<Filt, CurT, RB>>,
-           <<LB, IntT(<<49>>), Colon, RB>>, <<LB, Colon, Colon, IntT(<<45,49>>), RB>>, <<Dot, Star>> }
+           <<LB, IntT(<<49>>), Colon, RB>>, <<LB, Colon, Colon, IntT(<<45,49>>), RB>>, <<Dot, Star>>,
+           \* conditions that FAIL on some elements (after others have matched): an
+           \* identity must preserve the failure, not only the values
+           <<Filt, Id(<<97,98,115>>), LP, Id(<<97>>), RP, GtT, Json(<<96,48,96>>), RB>>,
+           <<Filt, Id(<<97>>), PlusT, Json(<<96,49,96>>), GtT, Json(<<96,49,96>>), OrT, Id(<<108,101,110,103,116,104>>), LP, Id(<<98>>), RP, GtT, Json(<<96,48,96>>), RB>> }
 Sel1 == { <<Dot, Id(<<97>>)>>, <<Dot, Id(<<98>>)>>, <<LB, IntT(<<48>>), RB>>, <<LB, IntT(<<45,49>>), RB>>,
           <<LB, IntT(<<49>>), Colon, RB>>, <<LB, Star, RB>>, <<Dot, Star>>, <<Filt, Id(<<97>>), RB>>,
           <<Dot, Id(<<97>>), LB, IntT(<<48>>), RB>>, <<Dot, QId(<<34,107,34>>)>> }
